@@ -129,7 +129,8 @@ class MixedUnitaryChannel(raw_types.Gate):
         ]
         args = [f'mixture=[{", ".join(unitary_tuples)}]']
         if self._key is not None:
-            args.append(f'key=\'{self._key}\'')
+            key = self._key if self._key.path else str(self._key)
+            args.append(f'key={key!r}')
         return f'cirq.MixedUnitaryChannel({", ".join(args)})'
 
     def _json_dict_(self) -> dict[str, Any]:
